@@ -373,6 +373,8 @@ def random_instance(rnd, family, stable=False):
     r = rnd.random()
     sid = 1
     if r < 0.45:
+        if geared and rnd.random() < 0.25:
+            ops.append(redeclare())             # between a run and its continuation (same epoch, same Solver)
         ops.append(run(1, rnd.randint(2, 15), cont_unit=rnd.random() < 0.6))
         if rnd.random() < 0.3:
             ops.append(run(1, rnd.randint(2, 8), cont_unit=True))
